@@ -455,3 +455,101 @@ def fieldw_within(ctx, inst, adt, field, allowed, floor=1, ops=None):
     if total < floor:
         ctx.anchor_missing(inst, "writes to %s.%s: expected >= %d, found %d" % (adt, field, floor, total))
     return total
+
+
+# -------------------------------------------------------------------- NODISCARD
+
+def _places_in(ev, kind):
+    """locals read by an event (operands, borrowed / inspected places)"""
+    out = set()
+
+    def op(o):
+        if o and o.get("k") in ("copy", "move"):
+            out.add(o["pl"]["l"])
+            for p in o["pl"]["p"]:
+                if isinstance(p, dict) and "idx" in p:
+                    out.add(p["idx"])
+
+    if kind == "assign":
+        rv = ev["rv"]
+        if rv in ("use", "repeat", "cast", "un"):
+            op(ev["a"])
+        elif rv == "bin":
+            op(ev["a"])
+            op(ev["b"])
+        elif rv in ("ref", "rawptr", "discr"):
+            out.add(ev["pl"]["l"])
+        elif rv == "agg":
+            for o in ev["ops"]:
+                op(o)
+        # writing through a projection reads the base
+        if ev["dst"]["p"]:
+            out.add(ev["dst"]["l"])
+    elif kind == "call":
+        for a in ev["args"]:
+            op(a)
+        if ev.get("fn_op"):
+            op(ev["fn_op"])
+    elif kind == "switch":
+        op(ev["discr"])
+    elif kind == "assert":
+        op(ev["cond"])
+    return out
+
+
+LAUNDER = ["Result::ok", "Result::err", "Result::map_err", "Result::map", "Result::is_ok", "Result::is_err",
+           "Result::unwrap_or_default", "Result::or", "Result::as_ref"]
+
+
+def result_is_used(body, nid, depth=0):
+    """is the value produced at call node nid read by anything other than its drop?"""
+    d = body.nodes[nid].ev["dest"]
+    if d["p"] or d["l"] == 0:
+        return True  # stored into a place / returned
+    l = d["l"]
+    for n in body.nodes:
+        if n.id == nid or n.kind in ("dead", "live", "drop"):
+            continue
+        if l in _places_in(n.ev, n.kind):
+            if n.kind == "call" and depth < 3 and any(call_matches(n.ev, x) for x in LAUNDER) and \
+                    not call_matches(n.ev, "Result::is_ok") and not call_matches(n.ev, "Result::is_err"):
+                if result_is_used(body, n.id, depth + 1):
+                    return True
+                continue
+            return True
+    return False
+
+
+def nodiscard(ctx, inst, scope_pred, result_ty_re, exceptions, what):
+    """every Result<_, FeoxError> produced by a call in scope is read"""
+    prog = ctx.prog
+    rx = re.compile(result_ty_re)
+    n_sites = 0
+    seen_exc = set()
+    for b in prog.product_bodies():
+        if not scope_pred(b):
+            continue
+        for n in b.calls():
+            if not rx.search(n.ev.get("dest_ty") or ""):
+                continue
+            if n.ev.get("span", {}).get("exp") and call_matches(n.ev, "Try::branch"):
+                continue
+            n_sites += 1
+            used = result_is_used(b, n.id)
+            owner = owner_fn(prog, b)
+            callee = callee_name(n.ev)
+            exc = None
+            for (f, c, why) in exceptions:
+                if path_matches(owner, f) and path_matches(callee, c):
+                    exc = (f, c)
+            if used:
+                ctx.ok(inst, "NODISCARD", owner, "%s: result of %s is consumed" % (what, callee.rsplit("::", 1)[-1]), b.where(n.id), nontrivial=True)
+            elif exc:
+                seen_exc.add(exc)
+                ctx.ok(inst, "NODISCARD", owner, "%s: reasoned exception for %s" % (what, callee.rsplit("::", 1)[-1]), b.where(n.id), nontrivial=False)
+            else:
+                ctx.fail(inst, "NODISCARD", owner, "%s: result of %s is discarded" % (what, callee.rsplit("::", 1)[-1]), b.where(n.id),
+                         {"rule": "a storage-layer error is dropped (`let _ =`, `.ok()`, unused)", "callee": callee})
+    if n_sites == 0:
+        ctx.anchor_missing(inst, "NODISCARD scope is empty")
+    return n_sites, seen_exc
